@@ -12,7 +12,7 @@ for var in c.variants():
     obs, stats = eng.run_paths(lambda ctx: c.setup(ctx, var), c.body, c.finish)
     print(c.variant_name(var), len(obs),'obligations gen %.1fs'%(time.time()-t), {k:v for k,v in stats.items() if k!='undecided'}, stats['undecided'][:3])
     t=time.time()
-    meta = discharge(obs, workers=16, timeout_ms=6000, use_cvc5=False)
+    meta = discharge(obs, workers=16, timeout_ms=int(__import__("os").environ.get("VC_TIMEOUT","6000")), use_cvc5=False)
     by=collections.defaultdict(lambda: collections.Counter()); ex={}
     for ob,k,res in meta:
         by[ob.name][res['status']+'/'+res['backend']]+=1
